@@ -92,17 +92,128 @@ func (c *c01Conn) SetDeadline(_ time.Time) error      { return nil }
 func (c *c01Conn) SetReadDeadline(_ time.Time) error  { return nil }
 func (c *c01Conn) SetWriteDeadline(_ time.Time) error { return nil }
 
-// c01Stream is a fake quic.Stream.
+// c01Stream is a fake quic.Stream that models the receive-side contract of
+// quic-go: the client's octets arrive in one or more pieces and the STREAM
+// FIN arrives either together with the last piece (Read returns n, io.EOF) or
+// on its own (Read returns n, nil and the next Read 0, io.EOF).  quic-go
+// retires a bidirectional stream, and gives the peer MAX_STREAMS credit for
+// it, only after the receive side was read to io.EOF or cancelled with
+// CancelRead; Close closes the send side only.
 type c01Stream struct {
 	quic.Stream
-	in  *bytes.Reader
-	out bytes.Buffer
+	pieces      [][]byte
+	finSeparate bool
+	out         bytes.Buffer
+
+	sawEOF      bool
+	cancelRead  bool
+	sendClosed  bool
+	readsAfterE int
 }
 
-func (s *c01Stream) Read(p []byte) (n int, err error)  { return s.in.Read(p) }
-func (s *c01Stream) Write(p []byte) (n int, err error) { return s.out.Write(p) }
-func (s *c01Stream) Close() error                      { return nil }
-func (s *c01Stream) SetReadDeadline(_ time.Time) error { return nil }
+func (s *c01Stream) Read(p []byte) (n int, err error) {
+	if s.cancelRead {
+		return 0, &quic.StreamError{Remote: false}
+	}
+	for len(s.pieces) > 0 && len(s.pieces[0]) == 0 {
+		s.pieces = s.pieces[1:]
+	}
+	if len(s.pieces) == 0 {
+		if s.sawEOF {
+			s.readsAfterE++
+		}
+		s.sawEOF = true
+
+		return 0, io.EOF
+	}
+	if len(p) == 0 {
+		return 0, nil
+	}
+	n = copy(p, s.pieces[0])
+	s.pieces[0] = s.pieces[0][n:]
+	if len(s.pieces[0]) == 0 {
+		s.pieces = s.pieces[1:]
+	}
+	if len(s.pieces) == 0 && !s.finSeparate {
+		s.sawEOF = true
+
+		return n, io.EOF
+	}
+
+	return n, nil
+}
+
+func (s *c01Stream) Write(p []byte) (n int, err error)  { return s.out.Write(p) }
+func (s *c01Stream) Close() error                       { s.sendClosed = true; return nil }
+func (s *c01Stream) CancelRead(_ quic.StreamErrorCode)  { s.cancelRead = true }
+func (s *c01Stream) CancelWrite(_ quic.StreamErrorCode) { s.sendClosed = true }
+func (s *c01Stream) SetReadDeadline(_ time.Time) error  { return nil }
+func (s *c01Stream) SetWriteDeadline(_ time.Time) error { return nil }
+func (s *c01Stream) SetDeadline(_ time.Time) error      { return nil }
+
+// c01StreamDelivery is one way the client's octets and FIN reach the server.
+type c01StreamDelivery struct {
+	name        string
+	split       func(b []byte) [][]byte
+	finSeparate bool
+}
+
+func c01SplitAt(b []byte, cuts ...int) (out [][]byte) {
+	prev := 0
+	for _, c := range cuts {
+		if c < 0 {
+			c = len(b) + c
+		}
+		if c <= prev || c >= len(b) {
+			continue
+		}
+		out = append(out, b[prev:c])
+		prev = c
+	}
+
+	return append(out, b[prev:])
+}
+
+// c01StreamDeliveries: 1..3 pieces (whole; length prefix | message; first
+// octet | middle | last octet) and every octet on its own, each with the FIN
+// together with the last piece or in a separate step.  The first one is the
+// primary delivery whose response is judged by the oracle.
+var c01StreamDeliveries = func() (ds []c01StreamDelivery) {
+	splits := []struct {
+		n string
+		f func(b []byte) [][]byte
+	}{
+		{"1-piece", func(b []byte) [][]byte { return [][]byte{b} }},
+		{"prefix|message", func(b []byte) [][]byte { return c01SplitAt(b, 2) }},
+		{"first|middle|last", func(b []byte) [][]byte { return c01SplitAt(b, 1, -1) }},
+		{"octet-by-octet", func(b []byte) (out [][]byte) {
+			if len(b) > 600 {
+				// Keep large messages affordable: 97-octet pieces.
+				for i := 0; i < len(b); i += 97 {
+					out = append(out, b[i:min(i+97, len(b))])
+				}
+
+				return out
+			}
+			for i := range b {
+				out = append(out, b[i:i+1])
+			}
+
+			return out
+		}},
+	}
+	for _, sp := range splits {
+		for _, sep := range []bool{false, true} {
+			n := sp.n + "+fin-with-data"
+			if sep {
+				n = sp.n + "+fin-separate"
+			}
+			ds = append(ds, c01StreamDelivery{name: n, split: sp.f, finSeparate: sep})
+		}
+	}
+
+	return ds
+}()
 
 // c01QUICConn is a fake quic.Connection.
 type c01QUICConn struct {
@@ -321,6 +432,9 @@ type c01TObs struct {
 	// Skipped is set when the message never reaches repository code on this
 	// transport (dropped by the DNSCrypt library's own check).
 	Skipped bool
+	// Findings are violations the driver itself observed (DoQ stream
+	// handling); the check functions report them with their own.
+	Findings []vrt.Finding
 }
 
 func (o c01TObs) note() string {
@@ -489,18 +603,48 @@ func c01TCPDirect(s *ServerDNS, wire []byte) (obs c01TObs) {
 // c01DoQ gives one stream with the given bytes to the real per-stream
 // function.
 func c01DoQ(rig *c01Rig, streamBytes []byte) (obs c01TObs) {
+	var shapes []string
+	for i, d := range c01StreamDeliveries {
+		o, consumed := c01DoQOnce(rig, streamBytes, d)
+		shape := fmt.Sprintf("msgs=%d closed=%v panicked=%v", len(o.Msgs), o.Closed, o.Panicked != "")
+		if len(o.Msgs) > 0 {
+			shape += " " + dns.RcodeToString[o.Msgs[0].Rcode] + " q=" + vdns.Question(o.Msgs[0])
+		}
+		shapes = append(shapes, shape)
+		if i == 0 {
+			obs = o
+		} else if shape != shapes[0] {
+			obs.Findings = append(obs.Findings, vrt.F("doq/treatment-depends-on-stream-segmentation",
+				"stream of %d octets: delivery %s -> %s; delivery %s -> %s", len(streamBytes), c01StreamDeliveries[0].name, shapes[0], d.name, shape)...)
+		}
+		if !consumed {
+			obs.Findings = append(obs.Findings, vrt.F("doq/answered-without-consuming-fin",
+				"stream of %d octets, delivery %s: the server finished with the stream (%s) while its receive side is neither at EOF nor cancelled and the connection is open: quic-go never retires such a stream",
+				len(streamBytes), d.name, shape)...)
+		}
+	}
+
+	return obs
+}
+
+// c01DoQOnce gives one stream to the real per-stream function.  consumed
+// reports whether the server left the stream in a state in which quic-go can
+// retire it: receive side read to io.EOF or cancelled, or the whole connection
+// closed.
+func c01DoQOnce(rig *c01Rig, streamBytes []byte, d c01StreamDelivery) (obs c01TObs, consumed bool) {
 	s := rig.doq
 	ctx, cancel := c01ReqCtx(s.ServerBase)
 	defer cancel()
-	st := &c01Stream{in: bytes.NewReader(streamBytes)}
+	st := &c01Stream{pieces: d.split(append([]byte{}, streamBytes...)), finSeparate: d.finSeparate}
 	conn := &c01QUICConn{}
 	wg := &sync.WaitGroup{}
 	wg.Add(1)
 	obs.Panicked = vrt.Catch(func() { s.serveQUICStreamAsync(ctx, st, conn, wg) })
 	c01DecodeFrames(st.out.Bytes(), &obs)
 	obs.Closed = conn.closedWith != nil
+	consumed = st.sawEOF || st.cancelRead || conn.closedWith != nil || obs.Panicked != ""
 
-	return obs
+	return obs, consumed
 }
 
 // c01HTTP serves one HTTP request with the real DoH handler.
@@ -842,6 +986,7 @@ func c01CheckQueryOn(r *vrt.Run, t string, wire []byte, req *dns.Msg, res c01Res
 	want := c01TupleOfResult(res)
 	class := func(s string) { r.Class("query:" + t + " " + res.Kind + " -> " + s) }
 	fs = append(fs, c01DisposeFindings(t)...)
+	fs = append(fs, obs.Findings...)
 	if obs.Panicked != "" {
 		return append(fs, vrt.F(t+"/panic-escapes", "query %q %s: %s", q.Name, res.Kind, obs.Panicked)...)
 	}
@@ -1137,9 +1282,9 @@ func c01CheckWireOn(r *vrt.Run, t, what string, wire []byte, obs c01TObs) (fs []
 
 		return nil
 	case obs.Panicked != "":
-		return vrt.F(t+"/panic-escapes", "input %s: %s", what, obs.Panicked)
+		return append(obs.Findings, vrt.F(t+"/panic-escapes", "input %s: %s", what, obs.Panicked)...)
 	case obs.Garbled != "":
-		return vrt.F(t+"/garbled-stream", "input %s: %s", what, obs.Garbled)
+		return append(obs.Findings, vrt.F(t+"/garbled-stream", "input %s: %s", what, obs.Garbled)...)
 	}
 	sp := c01Classify(wire)
 	if sp.Ref != nil && strings.HasPrefix(sp.Class, "query-") {
@@ -1281,6 +1426,7 @@ func c01RunBad(r *vrt.Run, c c01BadCase) (fs []vrt.Finding) {
 // in the transport's framing but is not an acceptable query.
 func c01CheckBadWire(r *vrt.Run, t, what string, wire []byte, obs c01TObs) (fs []vrt.Finding) {
 	fs = append(fs, c01DisposeFindings(t)...)
+	fs = append(fs, obs.Findings...)
 	sp := c01Classify(wire)
 	got := c01Treatment(sp, obs.Msgs)
 	allowed := map[string]bool{}
@@ -1342,6 +1488,7 @@ func c01CheckBadWire(r *vrt.Run, t, what string, wire []byte, obs c01TObs) (fs [
 // a normal answer to exactly that query is tolerated.
 func c01CheckBadFraming(r *vrt.Run, t, what string, wire []byte, goodReq *dns.Msg, obs c01TObs) (fs []vrt.Finding) {
 	fs = append(fs, c01DisposeFindings(t)...)
+	fs = append(fs, obs.Findings...)
 	switch {
 	case obs.JSON != nil:
 		st := -1
